@@ -3,6 +3,10 @@
 // threads run their API calls under the case's schedule; every visible action on the queue's two
 // mutexes, two atomic counters and condition variable is logged, together with every dispatched /
 // taken / peeked event and every call's result.  Same lines as ocaml/_build/driver_qconc.
+// the guarded verification marker of eventpp (EVENTPP_VERIF_POINT, internal/eventqueue_i.h) calls this function at the
+// emptiness pre-checks that are made without the mutex: a scheduling point, logged as `act tN read ql|fl`
+void qc_point(const char * what);
+#define EVENTPP_VERIF_POINT_FN qc_point
 #include "common.h"
 #include "vsched.h"
 #if defined(VH_HETER) && VH_HETER == 1
@@ -12,6 +16,14 @@
 #undef private
 #undef protected
 #endif
+
+static const char qcTagQl = 'q', qcTagFl = 'f';
+void qc_point(const char * what)
+{
+	vsched::Scheduler & s = vsched::Scheduler::get();
+	const void * obj = (what[0] == 'f') ? (const void *)&qcTagFl : (const void *)&qcTagQl;
+	if(s.isRegistered(obj)) { s.point(vsched::Kind::Point, obj); s.logAction("read", obj, 0, false); }
+}
 
 namespace {
 
@@ -94,6 +106,8 @@ int main()
 			s.registerObject(&r->q.queueEmptyCounter, "ec");
 			s.registerObject(&r->q.queueNotifyCounter, "nc");
 			s.registerObject(&r->q.queueListConditionVariable, "cv");
+			s.registerObject(&qcTagQl, "ql");
+			s.registerObject(&qcTagFl, "fl");
 			std::vector<std::function<void ()>> bodies;
 			Runner * rp = r.get();
 			for(size_t i = 0; i < r->progs.size(); ++i) bodies.push_back([rp, i]() { rp->body((int)i); });
